@@ -11,11 +11,17 @@ impl<S: Read + Write> Stream<S> {
     pub open spec fn rest(&self) -> Seq<u8> { match *self { Stream::Raw(e) => e.rest(), Stream::Ssl(e) => e.rest() } }
     pub open spec fn written(&self) -> Seq<u8> { match *self { Stream::Raw(e) => e.written(), Stream::Ssl(e) => e.written() } }
     pub open spec fn is_ssl(&self) -> bool { *self is Ssl }
+    pub open spec fn cert_checked(&self) -> bool { match *self { Stream::Ssl(e) => e.cert_checked(), _ => false } }
+    pub open spec fn peer_key(&self) -> Seq<u8> { match *self { Stream::Ssl(e) => e.peer_key(), _ => Seq::empty() } }
 }
 impl<S: Read + Write> Link<S> {
     pub closed spec fn rest(&self) -> Seq<u8> { self.stream.rest() }
     pub closed spec fn written(&self) -> Seq<u8> { self.stream.written() }
     pub closed spec fn tls(&self) -> bool { self.stream.is_ssl() }
+    /// certificate validation was requested when TLS was started on this link (false on a raw link)
+    pub closed spec fn cert_checked(&self) -> bool { self.stream.cert_checked() }
+    /// subject public key of the certificate the peer presented on THIS link
+    pub closed spec fn peer_key(&self) -> Seq<u8> { self.stream.peer_key() }
 }
 ''', mod="link", name="link_specs")
 
@@ -23,7 +29,7 @@ impl<S: Read + Write> Link<S> {
 LINK_WRITE = dict(
     ensures=[
         ("C14", "delivered", "r is Ok ==> final(self).written() == old(self).written() + ser(message.mv())"),
-        ("C14", "frame1", "final(self).rest() == old(self).rest()"), ("C14", "frame2", "final(self).tls() == old(self).tls()"),
+        ("C14", "frame1", "final(self).rest() == old(self).rest()"), ("C14", "frame2", "final(self).tls() == old(self).tls()"), (None, "frame4", "final(self).cert_checked() == old(self).cert_checked() && final(self).peer_key() == old(self).peer_key()"),
         ("C14", "err-prefix", "r is Err ==> is_prefix(old(self).written(), final(self).written())"),
     ])
 LINK_READ = dict(
@@ -31,6 +37,7 @@ LINK_READ = dict(
         ("C13", "exact", "r is Ok && expected_size > 0 ==> old(self).rest().len() >= expected_size && r->Ok_0@ == old(self).rest().take(expected_size as int) && final(self).rest() == old(self).rest().skip(expected_size as int)"),
         ("C13", "avail", "r is Ok && expected_size == 0 ==> r->Ok_0@.len() <= old(self).rest().len() && r->Ok_0@ == old(self).rest().take(r->Ok_0@.len() as int) && final(self).rest() == old(self).rest().skip(r->Ok_0@.len() as int)"),
         ("C13", "frame1", "final(self).written() == old(self).written()"), ("C13", "frame2", "final(self).tls() == old(self).tls()"), ("C13", "frame3", "is_suffix(final(self).rest(), old(self).rest())"),
+        (None, "frame4", "final(self).cert_checked() == old(self).cert_checked() && final(self).peer_key() == old(self).peer_key()"),
     ])
 
 tpkt_specs = Raw(r'''
@@ -97,15 +104,18 @@ UNIT = Unit("frame", ["base.rs", "tls.rs", "model.rs", "leaf.rs", "lemmas.rs"], 
     link_specs,
     Fn(LINK, "read_exact", impl=r"Stream<S>", mod="link", props=["C13"],
        ensures=[("C13", "exact", "r is Ok ==> old(self).rest().len() >= old(buf)@.len() && final(buf)@ == old(self).rest().take(old(buf)@.len() as int) && final(self).rest() == old(self).rest().skip(old(buf)@.len() as int)"),
-                ("C13", "frame1", "final(buf)@.len() == old(buf)@.len()"), ("C13", "frame2", "final(self).written() == old(self).written()"), ("C13", "frame3", "final(self).is_ssl() == old(self).is_ssl()"), ("C13", "frame4", "is_suffix(final(self).rest(), old(self).rest())")]),
+                ("C13", "frame1", "final(buf)@.len() == old(buf)@.len()"), ("C13", "frame2", "final(self).written() == old(self).written()"), ("C13", "frame3", "final(self).is_ssl() == old(self).is_ssl()"), ("C13", "frame4", "is_suffix(final(self).rest(), old(self).rest())"),
+                (None, "frame4", "final(self).cert_checked() == old(self).cert_checked() && final(self).peer_key() == old(self).peer_key()")]),
     Fn(LINK, "read", impl=r"Stream<S>", mod="link", props=["C13"],
        ensures=[("C13", "prefix", "r is Ok ==> r->Ok_0 <= old(buf)@.len() && r->Ok_0 <= old(self).rest().len() && final(buf)@.take(r->Ok_0 as int) == old(self).rest().take(r->Ok_0 as int) && final(self).rest() == old(self).rest().skip(r->Ok_0 as int)"),
-                ("C13", "frame1", "final(buf)@.len() == old(buf)@.len()"), ("C13", "frame2", "final(self).written() == old(self).written()"), ("C13", "frame3", "final(self).is_ssl() == old(self).is_ssl()"), ("C13", "frame4", "is_suffix(final(self).rest(), old(self).rest())")]),
+                ("C13", "frame1", "final(buf)@.len() == old(buf)@.len()"), ("C13", "frame2", "final(self).written() == old(self).written()"), ("C13", "frame3", "final(self).is_ssl() == old(self).is_ssl()"), ("C13", "frame4", "is_suffix(final(self).rest(), old(self).rest())"),
+                (None, "frame4", "final(self).cert_checked() == old(self).cert_checked() && final(self).peer_key() == old(self).peer_key()")]),
     Fn(LINK, "write", impl=r"Stream<S>", mod="link", props=["C14"],
        ensures=[("C14", "all-delivered", "r is Ok ==> final(self).written() == old(self).written() + buffer@"),
-                ("C14", "frame1", "final(self).rest() == old(self).rest()"), ("C14", "frame2", "final(self).is_ssl() == old(self).is_ssl()"), ("C14", "frame3", "is_prefix(old(self).written(), final(self).written())")]),
+                ("C14", "frame1", "final(self).rest() == old(self).rest()"), ("C14", "frame2", "final(self).is_ssl() == old(self).is_ssl()"), ("C14", "frame3", "is_prefix(old(self).written(), final(self).written())"),
+                (None, "frame4", "final(self).cert_checked() == old(self).cert_checked() && final(self).peer_key() == old(self).peer_key()")]),
     Fn(LINK, "new", impl=r"Link<S>", mod="link", props=["C13", "C14"],
-       ensures=["r.rest() == stream.rest() && r.written() == stream.written() && r.tls() == stream.is_ssl()"]),
+       ensures=["r.rest() == stream.rest() && r.written() == stream.written() && r.tls() == stream.is_ssl() && r.cert_checked() == stream.cert_checked() && r.peer_key() == stream.peer_key()"]),
     Fn(LINK, "write", impl=r"Link<S>", mod="link", props=["C14"], **LINK_WRITE),
     Fn(LINK, "read", impl=r"Link<S>", mod="link", props=["C13"], **LINK_READ),
     # ---------------- core/tpkt.rs
